@@ -278,6 +278,40 @@ def chk_multi_forms(rec, be):
         elif not equal_results(base[1], got):
             out.append(_mm(sub, "%s %s: form '%s' gives %s, form '%s' gives %s" % (
                 sub, hdr(rec), base[0], rstr(base[1]), form, rstr(got))))
+    # trains that still need clean-up (unsorted, a repeated time) on EQUAL edges: every form cleans them alike
+    if "_ivseq" not in rec and any(len(s_.spikes) >= 2 for s_ in sts):
+        messy = []
+        for s_ in sts:
+            sp = list(s_.spikes)
+            if len(sp) >= 2:
+                sp = [sp[-1]] + sp[:-1] + [sp[0]]            # unsorted, first spike repeated
+            messy.append(pyspike.SpikeTrain(np.array(sp, float), [s_.t_start, s_.t_end], is_sorted=True))
+        base = None
+        for form in forms_for(rec):
+            st, r = call(invoke, rec, messy, form)
+            n += 1
+            got = ("raise", r.split(":")[0]) if st != "ok" else norm_result(rec, r)
+            if base is None:
+                base = (form, got)
+            elif (base[1][0] == "raise") != (got[0] == "raise") or (got[0] != "raise" and not equal_results(base[1], got)):
+                out.append(_mm("%s[%s,%s]" % (API[rec["call"]["fn"]], be, form), "%s[%s] %s unsorted trains with a repeated time %s: "
+                               "form '%s' gives %s, form '%s' gives %s" % (
+                                   API[rec["call"]["fn"]], be, hdr(rec), [fl(m_.spikes) for m_ in messy], base[0],
+                                   rstr(base[1]) if base[1][0] != "raise" else base[1], form, rstr(got) if got[0] != "raise" else got)))
+                break
+    # a list is only read: the same list object, edited in place between two calls, gives what a fresh list gives
+    if len(sts) >= 2 and "_ivseq" not in rec:
+        L = list(sts)
+        s1, r1 = call(invoke, rec, L, "idx")
+        L[0], L[-1] = L[-1], L[0]
+        s2, r2 = call(invoke, rec, L, "idx")
+        s3, r3 = call(invoke, rec, list(L), "idx")
+        n += 1
+        if s2 != s3 or (s2 == "ok" and not equal_results(norm_result(rec, r3), norm_result(rec, r2))):
+            out.append(_mm("%s[%s,idx]" % (API[rec["call"]["fn"]], be), "%s[%s] %s: after exchanging the first and the last train IN the list "
+                           "that was passed before, the call gives %s; a fresh list with the same trains gives %s" % (
+                               API[rec["call"]["fn"]], be, hdr(rec), rstr(norm_result(rec, r2)) if s2 == "ok" else r2,
+                               rstr(norm_result(rec, r3)) if s3 == "ok" else r3)))
     # an averaging interval may be a sequence of intervals: every call form averages over the same pieces
     # (the pieces reach both edges of the recording, so that only the gap in the middle is left out)
     fn = rec["call"]["fn"]
@@ -336,6 +370,28 @@ def chk_multi_perm(rec, be):
         if not equal_results(exp, got):
             out.append(_mm(sub, "%s %s: list order %s gives %s, original order gives %s" % (
                 sub, hdr(rec), p, rstr(got), rstr(exp))))
+    # recordings of different length, each containing the previous one: the common interval (smallest start to
+    # largest end) and with it every result is the same in every list order
+    if fn != "filter" and not rec["call"]["iv"]:
+        nest = [pyspike.SpikeTrain(np.array(s_.spikes, float), [s_.t_start - k, s_.t_end + 2 * k]) for k, s_ in enumerate(sts)]
+        st, r = call(invoke, rec, nest, "sub", 1.0, ident)
+        n += 1
+        if st == "ok":
+            base2 = norm_result(rec, r)
+            for p in (tuple(reversed(range(N))), tuple(list(range(1, N)) + [0])):
+                st, r = call(invoke, rec, [nest[k] for k in p], "sub", 1.0, ident)
+                n += 1
+                if st != "ok":
+                    out.append(_mm(sub, "%s %s nested recordings, permutation %s raised %s" % (sub, hdr(rec), p, r)))
+                    continue
+                got = norm_result(rec, r)
+                exp = base2
+                if base2[0] == "matrix":
+                    m = base2[1]
+                    exp = ("matrix", np.array([[m[p[i]][p[j]] for j in range(N)] for i in range(N)], float))
+                if not equal_results(exp, got):
+                    out.append(_mm(sub, "%s %s recordings %s: list order %s gives %s, original order gives %s" % (
+                        sub, hdr(rec), [(s_.t_start, s_.t_end) for s_ in nest], p, rstr(got), rstr(exp))))
     return n, out
 
 
@@ -352,16 +408,19 @@ def chk_multi_avg(rec, be):
     variants = [(1.0, None), (2.0 ** 10, None), (2.0 ** -40, None)]
     if fr(rec["mrts"]) == 0:
         variants.append((1.0, "auto"))       # the same identity with the automatic threshold
+        variants.append((1.0, "auto, recordings of different length"))
     for sg, mode in variants:
         sts = trains_of(rec, sg)
         forms = [f for f in forms_for(rec) if f in ("idx", "sub", "bi")]
-        if mode == "auto":
-            sub = "%s[%s,MRTS='auto']" % (API[fn], be)
+        if mode is not None:
+            if mode != "auto":
+                sts = unequal_edges(sts)
+            sub = "%s[%s,MRTS='%s']" % (API[fn], be, mode)
             for form in forms:
-                st, v = call(invoke_mrts, rec, sts, form if form != "bi" else "sub", sg, "auto")
+                st, v = call(invoke_mrts, rec, sts, form, sg, "auto")
                 prec = dict(rec)
                 prec["call"] = dict(rec["call"], fn=PROFILE_OF[fn], iv=0)
-                st2, p = call(invoke_mrts, prec, sts, form if form != "bi" else "sub", sg, "auto")
+                st2, p = call(invoke_mrts, prec, sts, form, sg, "auto")
                 n += 1
                 if st != "ok" or st2 != "ok":
                     out.append(_mm(sub, "%s %s raised %s / %s" % (sub, hdr(rec), v if st != "ok" else "", p if st2 != "ok" else "")))
@@ -487,6 +546,32 @@ def chk_filter_rel(rec, be):
                     if abs(val - th) > 1e-9 and (t in r[k].spikes) != (val > th):
                         out.append(_mm(sub, "%s %s thr=%g MRTS='auto': spike %g of train %d has profile value %g but kept=%s" % (
                             sub, hdr(rec), th, t, k, val, t in r[k].spikes)))
+    # recordings of different length: the filter and the profile use the threshold of the reconciled list
+    un = unequal_edges(sts)
+    su, pu = call(lambda: pyspike.spike_sync_profile(un, **kwa))
+    for th in (0.0, 0.5):
+        st, r = call(lambda: pyspike.filter_by_spike_sync(un, th, **kwa))
+        n += 1
+        if st != "ok" or su != "ok":
+            if st != su:
+                out.append(_mm(sub, "%s %s thr=%g MRTS='auto', recordings of different length: filter %s, profile %s" % (
+                    sub, hdr(rec), th, r if st != "ok" else "ok", pu if su != "ok" else "ok")))
+            break
+        bad_ = False
+        for k in range(N):
+            for t in un[k].spikes:
+                if any(t in un[j].spikes for j in range(N) if j != k):
+                    continue
+                i = [m for m in range(1, len(pu.x) - 1) if pu.x[m] == t]
+                if len(i) == 1:
+                    val = pu.y[i[0]] / pu.mp[i[0]]
+                    if abs(val - th) > 1e-9 and (t in r[k].spikes) != (val > th):
+                        out.append(_mm(sub, "%s %s thr=%g MRTS='auto', recordings %s: spike %g of train %d has profile value %g but kept=%s" % (
+                            sub, hdr(rec), th, [(s_.t_start, s_.t_end) for s_ in un], t, k, val, t in r[k].spikes)))
+                        bad_ = True
+                        break
+            if bad_:
+                break
     # a list may hold the same object twice: the result depends on the spike times, not on object identity
     if N >= 2:
         for kwx in (dict(kw), dict(kw, Reconcile=False)):
@@ -789,6 +874,43 @@ def chk_multi_wf(rec, be):
             pb = wf_problem(kind, r, ts, te)
             if pb:
                 out.append(_mm(sub, "%s %s: %s" % (sub, hdr(rec), pb)))
+    # keywords arrive in many numeric types: an interval written with ints / numpy ints, a numpy-int max_tau ...
+    # give what the float spelling gives
+    kw0 = kwargs_of(rec)
+    typed = {}
+    if kw0.get("interval") is not None and all(float(v) == int(v) for v in kw0["interval"]):
+        typed["interval"] = [(int(kw0["interval"][0]), int(kw0["interval"][1])),
+                             (np.int64(kw0["interval"][0]), np.int64(kw0["interval"][1]))]
+    if kw0.get("max_tau") is not None and float(kw0["max_tau"]) == int(kw0["max_tau"]):
+        typed["max_tau"] = [int(kw0["max_tau"]), np.int64(kw0["max_tau"]), np.float32(kw0["max_tau"])]
+    if kw0.get("MRTS") and float(kw0["MRTS"]) == int(kw0["MRTS"]):
+        typed["MRTS"] = [int(kw0["MRTS"]), np.float32(kw0["MRTS"])]
+    if typed and fn != "filter":
+        f_ = getattr(pyspike, API[fn])
+        idx_ = [k - 1 for k in rec["call"]["idx"]]
+        s0, r0 = call(lambda: f_(sts, indices=list(idx_), **kw0))
+        for key, vals in typed.items():
+            for v in vals:
+                kw1 = dict(kw0)
+                kw1[key] = v
+                s1, r1 = call(lambda: f_(sts, indices=list(idx_), **kw1))
+                n += 1
+                sub = "%s[%s,%s=%r (%s)]" % (API[fn], be, key, v, type(v[0] if isinstance(v, tuple) else v).__name__)
+                if s1 != s0 or (s1 == "ok" and not equal_results(norm_result(rec, r0), norm_result(rec, r1))):
+                    out.append(_mm(sub, "%s %s: the call gives %s, with the same number(s) written as floats %s" % (
+                        sub, hdr(rec), rstr(norm_result(rec, r1)) if s1 == "ok" else r1, rstr(norm_result(rec, r0)) if s0 == "ok" else r0)))
+    # the histogram is a profile too: its time axis runs from t_start to t_end whatever the bin size
+    if fn == "isi_profile" and ident:
+        for bs in (1.0, 1.5, (te - ts) / 3.0, 3.0, te - ts):
+            st, r = call(lambda: pyspike.psth(sts, bs))
+            n += 1
+            sub = "psth[%s,bin=%g]" % (be, bs)
+            if st != "ok":
+                out.append(_mm(sub, "%s %s raised %s" % (sub, hdr(rec), r)))
+                continue
+            pb = wf_problem("profile", r, ts, te)
+            if pb:
+                out.append(_mm(sub, "%s %s: %s" % (sub, hdr(rec), pb)))
     # spikes within rounding of an edge (as produced by np.cumsum / np.arange: 0.9999999999999999 for an end of 1.0)
     # are inside the recording like any other: first train's last spike one ulp before t_end, second train's
     # first spike one ulp after t_start
@@ -938,6 +1060,32 @@ def chk_multi_auto(rec, be):
             elif not equal_results(norm_result(rec, a), norm_result(rec, b), sg):
                 out.append(_mm(sub, "%s %s [%s]: MRTS='auto' gives %s, MRTS=%r gives %s" % (
                     sub, h, form, rstr(norm_result(rec, a)), float(th2), rstr(norm_result(rec, b)))))
+        # recordings of different length: 'auto' is the threshold of the RECONCILED list (common interval)
+        if sg == 1.0 and fn != "filter":
+            un = unequal_edges(sts)
+            for form in [f for f in forms_for(rec) if f in ("idx", "sub", "bi")]:
+                idx0 = [k - 1 for k in rec["call"]["idx"]]
+                pool = un if form == "idx" else [un[k] for k in idx0]
+                st, rl = call(lambda: pyspike.spikes.reconcile_spike_trains(pool))
+                st2, th3 = call(lambda: pyspike.isi_lengths.default_thresh(rl)) if st == "ok" else ("exc", None)
+                if st != "ok" or st2 != "ok":
+                    continue
+                sa, a = call(invoke_mrts, ra, un, form, 1.0, "auto")
+                if form == "idx":
+                    sb, b = call(invoke_mrts, ra, rl, "idx", 1.0, float(th3))
+                else:
+                    r2 = dict(ra, call=dict(ra["call"], idx=list(range(1, len(rl) + 1))))
+                    sb, b = call(invoke_mrts, r2, rl, form, 1.0, float(th3))
+                n += 1
+                if sa != "ok" or sb != "ok":
+                    if sa != sb:
+                        out.append(_mm(sub, "%s %s [%s, recordings of different length]: MRTS='auto' -> %s, explicit on the reconciled list -> %s" % (
+                            sub, h, form, a if sa != "ok" else "ok", b if sb != "ok" else "ok")))
+                elif not equal_results(norm_result(rec, a), norm_result(rec, b), 1.0):
+                    out.append(_mm(sub, "%s %s [%s, recordings of different length %s]: MRTS='auto' gives %s, MRTS=%r (threshold of the "
+                                        "reconciled list) on the reconciled list gives %s" % (
+                                            sub, h, form, [(s_.t_start, s_.t_end) for s_ in un], rstr(norm_result(rec, a)), float(th3),
+                                            rstr(norm_result(rec, b)))))
         # monotone in MRTS for the multivariate forms
         if fn in ("isi_distance", "spike_distance", "sync", "isi_profile", "spike_profile", "isi_matrix", "spike_matrix", "sync_matrix"):
             prev = None
@@ -971,7 +1119,17 @@ def invoke_mrts(rec, sts, form, sg, m):
         return f(sts, th, return_removed_spikes=True, **kw)
     if form == "idx":
         return f(sts, indices=list(idx), **kw)
+    if form == "bi":
+        return f(sts[idx[0]], sts[idx[1]], **kw)
     return f([sts[k] for k in idx], **kw)
+
+
+def unequal_edges(sts, unit=1.0):
+    """the same spikes on recordings of different length (train k ends 2k+1 units later; train 0 is the shortest):
+    the common interval of the list is then the longest one, and a threshold computed from unreconciled trains
+    (or from the first train's own edges) differs from the threshold of the reconciled list"""
+    return [pyspike.SpikeTrain(np.array(s.spikes, float), [s.t_start, s.t_end + ((2 * k + 1) * unit if k else 0.0)])
+            for k, s in enumerate(sts)]
 
 
 # --------------------------------------------------------------------------- time-axis transformations of lists (C08, multivariate)
